@@ -181,6 +181,9 @@ impl Rec for Origin {
         self.process.as_ref().map_or(-2, |p| p.pid as i64)
     }
     fn unfaithful(&self) -> Option<String> {
+        if !SIGS.contains(&self.signal) && self.signal != libc::SIGWINCH {
+            return Some(format!("origin reports signal number {}, which was never delivered", self.signal));
+        }
         // judged against the independent decoder of C17 for the code this delivery carried
         let got = crate::c17::cause_label(&self.cause);
         match &self.process {
@@ -840,6 +843,18 @@ pub fn analyse(case: &IterCase, res: &RunResult) -> CaseReport {
             if dels.iter().any(|d| d.start > gone) {
                 rep.class("delivery-after-instance-drop");
             }
+            for d in &dels {
+                if d.stored.is_some() && d.start > gone {
+                    rep.viol("C12/leak", format!("after the instance and all its handles were gone, delivery {} of signal {} still ran a registration the instance had made", d.id, d.sig));
+                }
+            }
+            if !completed {
+                rep.viol("C12/teardown-stuck", format!("the instance and all its handles were dropped, yet the run never came to an end ({:?}): the removal of what the instance registered is stuck", res.outcome));
+            }
+        } else if hand.is_some() && inst.is_none() && log.iter().any(|r| matches!(&r.item, Item::Mark { name, .. } if *name == "post-close")) && !completed {
+            // every other owner is gone, the consumer started to let go of the instance and the
+            // run never got to the end of that drop
+            rep.viol("C12/teardown-stuck", format!("dropping the instance (last owner) never finished: {:?}", res.outcome));
         }
     }
 
